@@ -1,14 +1,169 @@
 /-
 C06 — ragged containers: construction, concatenation, clone, padding and fill laws.
+
+Property theorems only; helper lemmas are in TFVerif/Proofs/RaggedCat.lean (and the C05 files).
+As in C05, `MNT.ofGrid g` / `MET.ofW w` is the well-formed storage of a nested list of cells; all
+statements hold for every element type, every grid and every number of parts — no bounds.
 -/
-import TFVerif.Model.Ragged
+import TFVerif.Proofs.RaggedCat
+import TFVerif.Props.C05
 
 namespace TFVerif.C06
 
-/-- an empty argument list is rejected by both concatenations (both containers). -/
-theorem cat_empty_rejected (α : Type) :
+open TFVerif Grid
+
+/-! ### construction and reading back -/
+
+/-- `from_tensor_mat` accepts exactly the non-empty rectangular cell matrices with at least one
+    cell (`torch.cat` of nothing raises) and then stores them canonically … -/
+theorem fromCells_iff {α : Type} (mat : List (List (List α))) (m : MNT α) :
+    MNT.fromCells mat = some m ↔
+      ∃ r0 rest, mat = r0 :: rest ∧ (∀ row ∈ mat, row.length = r0.length) ∧ mat.flatten ≠ [] ∧
+        m = MNT.ofGrid { numCols := r0.length, rows := mat } := by
+  constructor
+  · exact fromCells_spec mat m
+  · rintro ⟨r0, rest, rfl, hu, hne, rfl⟩
+    exact fromCells_accepts r0 rest hu hne
+
+/-- … and reading every cell back (`m[i, j]` for all `i, j`) is the identity. -/
+theorem cells_fromCells {α : Type} (mat : List (List (List α))) (m : MNT α)
+    (h : MNT.fromCells mat = some m) : m.grid.rows = mat ∧ m.validate = true := by
+  obtain ⟨r0, rest, rfl, hu, _, rfl⟩ := (fromCells_iff mat m).1 h
+  have hg : ({ numCols := r0.length, rows := r0 :: rest } : Grid α).WF := hu
+  exact ⟨by rw [grid_ofGrid _ hg], validate_ofGrid _ hg⟩
+
+/-- the storage of a grid is determined by its cells: building from the cells that were read back
+    gives the same container (so "equal cells" and storage equality / `allclose` coincide for
+    canonical containers). -/
+theorem ofGrid_grid {α : Type} (g : Grid α) (hg : g.WF) : MNT.ofGrid (MNT.ofGrid g).grid = MNT.ofGrid g := by
+  rw [grid_ofGrid g hg]
+
+theorem met_cells_roundtrip {α : Type} (w : WGrid α) (hw : w.WF) : (MET.ofW w).grid = w.grid :=
+  met_grid_ofW w hw
+
+example : MNT.fromCells [[[1, 2], [3]], [[], [4, 5, 6]]]
+    = some { numRows := 2, numCols := 2, values := [1, 2, 3, 4, 5, 6], offset := [0, 2, 3, 3, 6] } := by decide
+example : MNT.fromCells [[[1], [2]], [[3]]] = none ∧ MNT.fromCells ([] : List (List (List Nat))) = none := by decide
+
+/-! ### concatenation -/
+
+/-- **rows**: concatenating well-formed containers with equal column counts yields exactly the rows
+    of the parts in order. -/
+theorem catRows_cells {α : Type} (g0 : Grid α) (rest : List (Grid α))
+    (hC : ∀ g ∈ g0 :: rest, g.numCols = g0.numCols) :
+    MNT.catRows ((g0 :: rest).map MNT.ofGrid)
+      = some (MNT.ofGrid { numCols := g0.numCols, rows := (g0 :: rest).flatMap (·.rows) }) :=
+  catRows_ofGrid g0 rest hC
+
+/-- **columns**: concatenating well-formed containers with equal row counts yields, row by row, the
+    cells of the parts in order. -/
+theorem catCols_cells {α : Type} (g0 : Grid α) (rest : List (Grid α))
+    (hwf : ∀ g ∈ g0 :: rest, g.WF) (hR : ∀ g ∈ g0 :: rest, g.rows.length = g0.rows.length) :
+    MNT.catCols ((g0 :: rest).map MNT.ofGrid)
+      = some (MNT.ofGrid { numCols := ((g0 :: rest).map (·.numCols)).sum,
+                           rows := (List.range g0.rows.length).map fun r =>
+                             (g0 :: rest).flatMap fun g => g.rows.getD r [] }) :=
+  catCols_ofGrid g0 rest hwf hR
+
+/-- empty argument lists and parts whose column (resp. row) counts disagree are rejected. -/
+theorem cat_rejects {α : Type} :
     MNT.catRows ([] : List (MNT α)) = none ∧ MNT.catCols ([] : List (MNT α)) = none ∧
-    MET.catRows ([] : List (MET α)) = none ∧ MET.catCols ([] : List (MET α)) = none := by
-  simp [MNT.catRows, MNT.catCols, MET.catRows, MET.catCols]
+    MET.catRows ([] : List (MET α)) = none ∧ MET.catCols ([] : List (MET α)) = none ∧
+    (∀ (x0 : MNT α) rest, (∃ x ∈ rest, x.numCols ≠ x0.numCols) → MNT.catRows (x0 :: rest) = none) ∧
+    (∀ (x0 : MNT α) rest, (∃ x ∈ rest, x.numRows ≠ x0.numRows) → MNT.catCols (x0 :: rest) = none) :=
+  ⟨rfl, rfl, rfl, rfl, catRows_rejects.2, catCols_rejects.2⟩
+
+/-- **split / concat along rows**: for every way of cutting the rows of a grid into consecutive
+    parts (any number of parts ≥ 1, empty parts allowed), concatenating the parts' containers
+    restores the container. -/
+theorem split_cat_rows {α : Type} (C : Nat) (p0 : List (List (List α))) (ps' : List (List (List (List α)))) :
+    MNT.catRows ((p0 :: ps').map fun rows => MNT.ofGrid { numCols := C, rows := rows })
+      = some (MNT.ofGrid { numCols := C, rows := (p0 :: ps').flatten }) := by
+  have := catRows_ofGrid (α := α) { numCols := C, rows := p0 }
+    (ps'.map fun rows => { numCols := C, rows := rows })
+    (by intro g hg; simp only [List.mem_cons, List.mem_map] at hg
+        rcases hg with rfl | ⟨_, _, rfl⟩ <;> rfl)
+  simp only [List.map_cons, List.map_map, Function.comp_def] at this ⊢
+  rw [this]
+  have : ((ps'.map fun rows => ({ numCols := C, rows := rows } : Grid α)).map fun x => x.rows) = ps' := by
+    simp [List.map_map, Function.comp_def]
+  simp only [List.flatMap_def, List.map_cons, List.flatten_cons, this]
+
+/-- the parts of `split_cat_rows` are what row slices return: slicing `[a, b)` out of a container
+    gives the container of `rows[a:b]` (C05), so split-by-slices followed by `cat` is the identity. -/
+theorem split_by_slices_then_cat {α : Type} (g : Grid α) (hg : g.WF) (a : Nat) (ha : a ≤ g.rows.length) :
+    (do let top ← (MNT.ofGrid g).select (.slice none (some a) none) 0
+        let bot ← (MNT.ofGrid g).select (.slice (some a) none none) 0
+        MNT.catRows [top, bot]) = some (MNT.ofGrid g) := by
+  rw [select_ofGrid g hg _ 0 (Or.inl rfl), select_ofGrid g hg _ 0 (Or.inl rfl)]
+  simp only [Grid.select, Index.positions, Option.map_some, Option.bind_eq_bind, Option.bind_some]
+  have h := split_cat_rows g.numCols (pick g.rows (slicePositions (g.size 0) none (some (a : Int)) 1))
+    [pick g.rows (slicePositions (g.size 0) (some (a : Int)) none 1)]
+  simp only [List.map_cons, List.map_nil, Grid.pickDim, if_true] at h ⊢
+  rw [h]
+  congr 2
+  have h1 := (C05_slice g.rows none (some (a : Int)))
+  have h2 := (C05_slice g.rows (some (a : Int)) none)
+  simp only [Grid.size, if_true, List.flatten_cons, List.flatten_nil, List.append_nil]
+  rw [h1, h2]
+  have e1 : clampBound g.rows.length (some (a : Int)) g.rows.length = a := by
+    simp only [clampBound]; split <;> split <;> omega
+  have e0 : clampBound g.rows.length (some (a : Int)) 0 = a := by
+    simp only [clampBound]; split <;> split <;> omega
+  have n1 : ∀ d, clampBound g.rows.length none d = d := fun _ => rfl
+  simp only [sliceBounds, e1, e0, n1, List.drop_zero, Nat.sub_zero]
+  have : (g.rows.drop a).take (g.rows.length - a) = g.rows.drop a := by
+    apply List.take_of_length_le; simp
+  rw [this, List.take_append_drop]
+where
+  C05_slice {β : Type} (xs : List β) (a b : Option Int) :
+      pick xs (slicePositions xs.length a b 1)
+        = (xs.drop (sliceBounds xs.length a b).1).take ((sliceBounds xs.length a b).2 - (sliceBounds xs.length a b).1) := by
+    simp only [slicePositions, sliceBounds, rangeStep_one]
+    have h2 := clampBound_le xs.length b xs.length (Nat.le_refl _)
+    by_cases h : clampBound xs.length a 0 ≤ clampBound xs.length b xs.length
+    · exact pick_range' xs _ _ (by omega)
+    · have : clampBound xs.length b xs.length - clampBound xs.length a 0 = 0 := by omega
+      simp [this, pick]
+
+/-! ### dense padding -/
+
+/-- padding reproduces every cell followed only by the fill value, up to the longest cell. -/
+theorem toDense_cell {α : Type} (g : Grid α) (hg : g.WF) (fill : α) (hne : g.rows.flatten ≠ []) :
+    (MNT.ofGrid g).toDense fill
+      = some (g.rows.map fun row => row.map fun cell =>
+          cell ++ List.replicate ((g.rows.flatten.map List.length).foldl max 0 - cell.length) fill) ∧
+    (∀ row ∈ g.rows, ∀ cell ∈ row, cell.length ≤ (g.rows.flatten.map List.length).foldl max 0) :=
+  toDense_ofGrid g hg fill hne
+
+example : (MNT.ofGrid C05.g32).toDense 0
+    = some [[[1, 2, 0], [3, 0, 0]], [[4, 0, 0], [5, 6, 7]], [[8, 9, 0], [0, 0, 0]]] := by decide
+
+/-! ### MultiEmbeddingTensor concatenation -/
+
+theorem met_catRows_cells {α : Type} (w0 : WGrid α) (rest : List (WGrid α))
+    (hW : ∀ w ∈ w0 :: rest, w.widths = w0.widths ∧ w.grid.numCols = w0.grid.numCols) :
+    MET.catRows ((w0 :: rest).map MET.ofW)
+      = some (MET.ofW { grid := { numCols := w0.grid.numCols, rows := (w0 :: rest).flatMap (·.grid.rows) },
+                        widths := w0.widths }) :=
+  met_catRows_ofW w0 rest hW
+
+theorem met_catCols_cells {α : Type} (w0 w1 : WGrid α) (rest : List (WGrid α))
+    (hR : ∀ w ∈ w0 :: w1 :: rest, w.grid.rows.length = w0.grid.rows.length) :
+    MET.catCols ((w0 :: w1 :: rest).map MET.ofW)
+      = some (MET.ofW { grid := { numCols := ((w0 :: w1 :: rest).map (·.grid.numCols)).sum,
+                                  rows := (List.range w0.grid.rows.length).map fun r =>
+                                    (w0 :: w1 :: rest).flatMap fun w => w.grid.rows.getD r [] },
+                        widths := (w0 :: w1 :: rest).flatMap (·.widths) }) :=
+  met_catCols_ofW w0 w1 rest hR
+
+/-- a single part is returned as it is (both axes). -/
+theorem met_cat_single {α : Type} (x : MET α) : MET.catRows [x] = some x ∧ MET.catCols [x] = some x :=
+  ⟨rfl, rfl⟩
+
+example : MET.catCols [MET.ofW C05.w23, MET.ofW C05.w23]
+    = some { numRows := 2, numCols := 6, width := 12,
+             values := [[1, 2, 3, 4, 5, 6, 1, 2, 3, 4, 5, 6], [7, 8, 9, 10, 11, 12, 7, 8, 9, 10, 11, 12]],
+             offset := [0, 3, 5, 6, 9, 11, 12] } := by decide
 
 end TFVerif.C06
